@@ -41,11 +41,11 @@ Definition nums_of (a : sv_acc) : list N := [a_major a; a_minor a; a_patch a].
 
 Lemma int_contrib_spec vs c :
   match comp_value c vs uint_sanitizer with
-  | Some v => if nonempty v then match parse_u32 v with Some n => Some n | None => None end else None
+  | Some v => if nonempty v then match parse_u64 v with Some n => Some n | None => None end else None
   | None => None
   end = int_contrib vs c.
-Proof. unfold int_contrib, u32_value. destruct (comp_value c vs uint_sanitizer) as [v|]; [|reflexivity].
-  destruct (nonempty v); [destruct (parse_u32 v); reflexivity|reflexivity]. Qed.
+Proof. unfold int_contrib, u64_value. destruct (comp_value c vs uint_sanitizer) as [v|]; [|reflexivity].
+  destruct (nonempty v); [destruct (parse_u64 v); reflexivity|reflexivity]. Qed.
 
 (* one loop step, as a function of "is it taken as a core number" *)
 Definition rest_acc (c : component) (vs : vars) (a : sv_acc) : sv_acc :=
@@ -66,7 +66,7 @@ Lemma core_step c cs vs k a :
 Proof.
   cbn [sv_process_core]. rewrite <- int_contrib_spec.
   destruct (comp_value c vs uint_sanitizer) as [v|]; [|reflexivity].
-  destruct (nonempty v); [|reflexivity]. destruct (parse_u32 v) as [n|]; [|reflexivity].
+  destruct (nonempty v); [|reflexivity]. destruct (parse_u64 v) as [n|]; [|reflexivity].
   destruct (Nat.ltb k 3); [|reflexivity]. destruct k as [|[|k]]; reflexivity.
 Qed.
 
@@ -165,7 +165,7 @@ Qed.
 
 (* --- unset variables contribute nothing --- *)
 Lemma unset_int vs c : unset c vs -> int_contrib vs c = None.
-Proof. intros [H _]. unfold int_contrib, u32_value. rewrite H. reflexivity. Qed.
+Proof. intros [H _]. unfold int_contrib, u64_value. rewrite H. reflexivity. Qed.
 
 Lemma unset_build_ids vs c : unset c vs -> sv_build_ids c vs = [].
 Proof. intros [H _]. unfold sv_build_ids. rewrite H. reflexivity. Qed.
